@@ -58,6 +58,11 @@ CHECKS = {
    text="For every value of the data set (hostile strings and keys, boundary numbers, lists, nested tables, arrays of tables, mixed arrays, empty containers; TOML-safe subset for TOML) the loop export --out E -> independent reader == JSON tree, -o file.ext inference, export -> cue import -> export --out json == original, direct file / stdin / package-directory inputs, -e path and --escape is run for E in json, yaml, toml, cue; an exit-status truth table covers incomplete, conflicting and non-concrete inputs under every encoding.",
    note="Trusts encoding/json, goccy/go-yaml + yaml.v3 (2-of-2), pelletier/go-toml as independent readers (TOML key order ignored). In-process execution of the CLI is validated against the real binary on a fixed 1-in-9 sample of invocations (stdout and exit status must agree).",
    ref="DESIGN.md §3 C12"),
+ "C20": dict(engine="enum",
+   technique="bounded-exhaustive enumeration of packages (schema+data declaration pool x file partitions, trim testdata with every literal replaced) through the real loader, trim.Files and evaluator; canonical value with defaults resolved compared before/after",
+   text="Every package of <=k declarations from the schema+redundant-data pool, in every partition over 1-2 files and both file orders, and every trim testdata archive unmutated and with each literal replaced, is loaded as the command does (cue/load overlay), trimmed with trim.Files, printed, re-loaded and re-evaluated: the files must still build, canon with defaults resolved must be identical at every path (same data, same errors) and trimming the result again must change nothing.",
+   note="Trusts package canon. Packages on which trim.Files itself returns an error are counted (trim-refused) and not compared. One known idempotence finding is listed in known_findings.jsonl.",
+   ref="DESIGN.md §3 C20"),
  "C09": dict(engine="enum",
    technique="bounded-exhaustive enumeration of token strings / strings x quoting forms / literal spellings on the real scanner, parser and literal package (explicit-state, no sampling)",
    text="Every token string up to the length bound, every string over a hostile rune alphabet under every quoting form and every literal-candidate spelling up to the bound is executed on the real code and checked against position invariants, Unquote(Quote(s))==s and three-way validity agreement. Exhaustive within the stated alphabet/bound; says nothing beyond it.",
